@@ -349,6 +349,40 @@ def check(ctx: Ctx, ev: Evidence) -> list[Finding]:
             if not ok6:
                 out.append(Finding("C09-R6", f"{mf.qualname} | read({ast.unparse(expr)[:60]}) | unaligned block length",
                                    f"the modular checksum reads blocks of {sorted(block_names)} bytes without aligning them to the 4-byte word grid: each block's tail is zero-padded on its own, so the result depends on the chunk length", loc(mf, rd)))
+    # R8: the modular sum is reduced modulo 2**32 before it is packed into 4 bytes - by a reduction that dominates the
+    # packing (a statement of the function body after the loop), or because every update of the sum is itself a reduction
+    ev.rule("C09-R8", "modular checksum: the running sum is reduced modulo 2**32 (%, & mask) on every path to the 4-byte packing", 1)
+
+    def _is_reduction(e: ast.AST) -> bool:
+        t = ast.unparse(e).replace(" ", "")
+        return any(tok in t for tok in ("%2**32", "%(2**32)", "%4294967296", "%(1<<32)", "%1<<32", "&4294967295", "&0xffffffff", "&0xFFFFFFFF", "&(2**32-1)", "&((1<<32)-1)"))
+
+    for mf in mod_fns:
+        packs = [n for n in ast.walk(mf.node) if isinstance(n, ast.Call) and ((ast.unparse(n.func) in ("struct.pack", "pack") and n.args and isinstance(n.args[0], ast.Constant) and "I" in str(n.args[0].value))
+                                                                              or (isinstance(n.func, ast.Attribute) and n.func.attr == "to_bytes"))]
+        if not packs:
+            raise AnalysisError(f"{mf.qualname}: no 4-byte packing of the sum found")
+        for pk in packs:
+            val = pk.args[1] if ast.unparse(pk.func) in ("struct.pack", "pack") and len(pk.args) > 1 else (pk.func.value if isinstance(pk.func, ast.Attribute) else None)
+            if val is None:
+                continue
+            okr = _is_reduction(val)
+            var = val.id if isinstance(val, ast.Name) else None
+            if not okr and var:
+                top = [s_ for s_ in mf.node.body if isinstance(s_, (ast.Assign, ast.AugAssign)) and var in {ast.unparse(t) for t in (s_.targets if isinstance(s_, ast.Assign) else [s_.target])}]
+                # a reduction at function-body level after the last loop
+                last_loop = max([s_.lineno for s_ in mf.node.body if isinstance(s_, (ast.For, ast.While, ast.With))] + [0])
+                after = [s_ for s_ in top if s_.lineno > last_loop]
+                if any((isinstance(s_, ast.AugAssign) and isinstance(s_.op, (ast.Mod, ast.BitAnd)) and _is_reduction(ast.BinOp(left=ast.Name(id="x", ctx=ast.Load()), op=s_.op, right=s_.value))) or (isinstance(s_, ast.Assign) and _is_reduction(s_.value)) for s_ in after):
+                    okr = True
+                else:
+                    ups = [s_ for s_ in ast.walk(mf.node) if isinstance(s_, (ast.Assign, ast.AugAssign)) and var in {ast.unparse(t) for t in (s_.targets if isinstance(s_, ast.Assign) else [s_.target])}]
+                    nonzero = [s_ for s_ in ups if not (isinstance(s_, ast.Assign) and isinstance(s_.value, ast.Constant))]
+                    okr = bool(nonzero) and all(isinstance(s_, ast.Assign) and _is_reduction(s_.value) for s_ in nonzero)
+            ev.inst("C09-R8", f"{mf.name}: value packed by `{ast.unparse(pk)[:50]}` is reduced modulo 2**32 on every path: {okr}", "ok" if okr else "violation", loc(mf, pk))
+            if not okr:
+                out.append(Finding("C09-R8", f"{mf.qualname} | packed sum not reduced modulo 2**32",
+                                   f"`{ast.unparse(pk)[:60]}` packs a running sum that no dominating statement reduces modulo 2**32 (a conditional fold inside the loop is not a reduction: at the boundary the value does not fit 4 bytes and struct.error leaves the handlers)", loc(mf, pk)))
     # R4
     vq = "cfdppy.filestore.VirtualFilestore.verify_checksum"
     vf = prog.functions.get(vq)
